@@ -652,7 +652,8 @@ func exec1(a []string) string {
 			}
 			lib.Stat("flow:decoded")
 		}
-		return "ok " + f.EndpointType().String() + " " + lib.Hex(s.Raw()) + ">" + lib.Hex(d.Raw()) + " rev " + lib.Hex(rs.Raw()) + ">" + lib.Hex(rd.Raw())
+		return "ok " + fmt.Sprint(int64(f.EndpointType())) + " " + lib.Hex(s.Raw()) + ">" + lib.Hex(d.Raw()) + " rev " + lib.Hex(rs.Raw()) + ">" + lib.Hex(rd.Raw()) +
+			" hash=" + u(f.FastHash()) + " rhash=" + u(f.Reverse().FastHash())
 
 	case "nlt":
 		if len(a) != 2 || cur == nil {
